@@ -81,6 +81,8 @@ type Call struct {
 type StreamOut struct {
 	ID           uint32
 	HeaderBlocks [][][2]string // decoded header blocks, in order
+	RawBlocks    [][]byte      // the same blocks as received (HPACK bytes)
+	BlockFrames  [][]int       // payload size of each frame that carried block i
 	HeaderEnd    []bool        // END_STREAM seen on the HEADERS frame of block i
 	HeadersIdx   []int         // index in Out of the HEADERS frame of block i
 	Data         []byte
@@ -125,6 +127,7 @@ type Server struct {
 	blockBuf     []byte
 	blockEnd     bool
 	blockIdx     int
+	blockSizes   []int
 	PeerEnc      *PeerEncoder
 	EventLog     []string
 	ConnClosedAt int // event index at which the server closed the transport (-1: open)
@@ -401,6 +404,7 @@ func (h *Server) collect() {
 			}
 			so.Order = append(so.Order, "HEADERS")
 			h.curBlock, h.blockBuf, h.blockEnd, h.blockIdx = f.Stream, append([]byte{}, sem.Body...), sem.EndStream, len(h.Out)-1
+			h.blockSizes = []int{len(f.Payload)}
 			if sem.EndHeaders {
 				h.finishBlock()
 			}
@@ -412,6 +416,7 @@ func (h *Server) collect() {
 				continue
 			}
 			h.blockBuf = append(h.blockBuf, sem.Body...)
+			h.blockSizes = append(h.blockSizes, len(f.Payload))
 			if sem.EndHeaders {
 				h.finishBlock()
 			}
@@ -446,6 +451,8 @@ func (h *Server) finishBlock() {
 		kv = append(kv, [2]string{f.Name, f.Value})
 	}
 	so.HeaderBlocks = append(so.HeaderBlocks, kv)
+	so.RawBlocks = append(so.RawBlocks, append([]byte{}, h.blockBuf...))
+	so.BlockFrames = append(so.BlockFrames, h.blockSizes)
 	so.HeaderEnd = append(so.HeaderEnd, h.blockEnd)
 	so.HeadersIdx = append(so.HeadersIdx, h.blockIdx)
 	if h.blockEnd {
